@@ -748,6 +748,13 @@ func execC32(t *testing.T, scAny any, keepLog bool) *Outcome {
 		h.Write(b)
 		o.Distinct = h.Sum()
 		o.Nontrivial = fired > 0 || sc.Mode == "stub"
+		if usesSystemEntropy(sc.Client.Curves, sc.Server.Curves) {
+			o.count("probe.runs_reaching_system_entropy_mlkem", 1)
+			hh := kit.NewHash64()
+			hh.Write(b)
+			hh.WriteString(fmt.Sprint(o.Fail == nil))
+			o.LogHash = hh.Sum()
+		}
 	})
 	return o
 }
